@@ -1,12 +1,16 @@
 (* Wire command of the Loader model (C02) for the correspondence driver.
 
      (c02_load <arming> <thr> <kind> <off> h<content at parse time> h<content afterwards>
-               <decode> <protos> <stds> <reprs> ( <earlier hook operation> ... ))
+               <decode> <protos> <stds> <reprs> ( <earlier hook operation> ... ) <first parse>)
        arming = direct | hook | ctx       (thr = the threshold argument; ignored by hook, and -- as
                                             in context.py -- by ctx)
        kind   = bytes | seek | nonseek
-       decode = none | ( <abstract op> ... )   what pickletools decodes the parsed opcodes to
+       decode = none | ( <abstract op> ... )   what pickletools decodes the RE-PARSED opcodes to
                 (none = an argument-content ValueError inside Pickled.load)
+       first parse = stable           Pickled.load(file) on the parse-time content (Codec.load_model)
+                   | (dumps h<D>)     a stream that misbehaves during the parse: Pickled.load(file) returned SOME
+                                      opcode list that re-serialises to D (load_core depends on nothing else:
+                                      LoaderProofs.core_depends_on_dumps_only)
      -> RET h<bytes unpickled> [<resolve events>] c<calls> r<stream access times>
       | UNPICKLE-ERR h<bytes unpickled> [<resolve events>] c<calls> r..
       | UNSAFE <severity name> r..  | PARSE <class> r..  | ANALYSIS <error> r..  | DUMPS r..
@@ -63,7 +67,7 @@ Definition show_lrun (r : lrun val) : string :=
 Definition handle_loader (cmd : string) (args : list sexp) : option string :=
   if cmd =? "c02_load" then
     match args with
-    | [Atom a; thr; k; off; b0; b1; dec; protos; stds; reprs; SList hist] =>
+    | [Atom a; thr; k; off; b0; b1; dec; protos; stds; reprs; SList hist; fp] =>
         match as_nat thr, kind_of_atom k, nat_of_atom off, bytes_of_wire b0, bytes_of_wire b1,
               protos_of_sexp protos, strs_of_sexp stds, reprs_of_sexp reprs, opt_map as_hop hist with
         | Some t, Some kd, Some o, Some bs0, Some bs1, Some pr, Some sl, Some tbl, Some h =>
@@ -79,8 +83,24 @@ Definition handle_loader (cmd : string) (args : list sexp) : option string :=
             | Some arm, Some d =>
                 let prog := match d with Some (p, _) => p | None => [] end in
                 let s := mkStream kd o (fun tm => if Nat.eqb tm T_PARSE then bs0 else bs1) in
-                Some (match armed_load val (ref_unpickle prog) (fun _ => d)
-                              (lookup_repr tbl) (fun m => mem_str m sl) h arm s with
+                let run :=
+                  match fp with
+                  | Atom "stable" =>
+                      armed_load val (ref_unpickle prog) (fun _ => d)
+                                 (lookup_repr tbl) (fun m => mem_str m sl) h arm s
+                  | SList [Atom "dumps"; dd] =>
+                      match bytes_of_wire dd with
+                      | Some dbytes =>
+                          armed_core val (ref_unpickle prog) (fun _ => d)
+                                     (lookup_repr tbl) (fun m => mem_str m sl) h arm
+                                     (LOk [mkOpc (0%N, ("?", (0%Z, ("none", (true, true))))) 0 (Some dbytes)])
+                                     (parse_reads kd)
+                                     (stock_load val (ref_unpickle prog) s)
+                      | None => None
+                      end
+                  | _ => None
+                  end in
+                Some (match run with
                       | Some r => show_lrun r
                       | None => "UNMODELLED-BINDING"
                       end)
